@@ -142,4 +142,116 @@ theorem specRun_ids (P : Bytes → Prop) (cfg : Config) (au : Authn) :
         simp only [hq, Option.toList_some, List.mem_singleton] at hr
         subst hr; rw [hq] at hs; exact hs.2
     · exact ih _ (fun id n hm => hP id n (by simp [hm])) hs.1 r hr
+/-! ## every PREPARE / EXECUTE serves an `exec` action of the plan -/
+
+/-- the actions the specification still has to serve at a point of the exchange (the one in progress first) -/
+def actsOf : SpecAt → List Action
+  | .use _ _ _ _ rest => rest
+  | .reg _ _ _ rest => rest
+  | .prep _ _ _ stmt cons vals rest => .exec stmt cons vals :: rest
+  | .exe _ _ _ stmt cons vals rest => .exec stmt cons vals :: rest
+  | _ => []
+
+def FromPlan (plan : List Action) (l : List Action) : Prop := ∀ a ∈ l, a ∈ plan
+
+/-- a PREPARE / EXECUTE is that of an `exec` action of the plan -/
+def execOfPlan (cfg : Config) : Option (Req × Bool) → Prop
+  | some (Req.execute id p pl, _) =>
+    ∃ stmt cons vals curKs, Action.exec stmt cons vals ∈ cfg.plan ∧ Req.execute id p pl = specExecute cfg curKs id cons vals
+  | some (Req.prepare stmt ks pl, _) =>
+    ∃ cons vals curKs, Action.exec stmt cons vals ∈ cfg.plan ∧ Req.prepare stmt ks pl = specPrepare cfg.v curKs stmt
+  | _ => True
+
+theorem fromPlan_nil (plan : List Action) : FromPlan plan [] := by intro a ha; simp at ha
+
+theorem specExec_plan (cfg : Config) (z : Bool) (curKs : Bytes) (known : Known) (stmt : Bytes) (cons : Nat)
+    (vals : List (Option Bytes)) (rest : List Action) (h : FromPlan cfg.plan (.exec stmt cons vals :: rest)) :
+    FromPlan cfg.plan (actsOf (specExec cfg z curKs known stmt cons vals rest).1) ∧
+    execOfPlan cfg (specExec cfg z curKs known stmt cons vals rest).2 := by
+  have h0 : Action.exec stmt cons vals ∈ cfg.plan := h _ (by simp)
+  unfold specExec
+  cases List.lookup (curKs, stmt) known with
+  | none => exact ⟨h, cons, vals, curKs, h0, rfl⟩
+  | some info =>
+    obtain ⟨id, n⟩ := info
+    by_cases hn : n = vals.length
+    · simp only [hn, if_true]; exact ⟨h, stmt, cons, vals, curKs, h0, rfl⟩
+    · simp only [hn, if_false]; exact ⟨fromPlan_nil _, trivial⟩
+
+theorem specNext_plan (cfg : Config) (z : Bool) (curKs : Bytes) (known : Known) (rest : List Action)
+    (h : FromPlan cfg.plan rest) :
+    FromPlan cfg.plan (actsOf (specNext cfg z curKs known rest).1) ∧ execOfPlan cfg (specNext cfg z curKs known rest).2 := by
+  induction rest with
+  | nil => exact ⟨fromPlan_nil _, trivial⟩
+  | cons a rest ih =>
+    have hr : FromPlan cfg.plan rest := fun x hx => h x (by simp [hx])
+    cases a with
+    | useKs ks => exact ⟨hr, trivial⟩
+    | register t s c =>
+      simp only [specNext]
+      split
+      · exact ih hr
+      · exact ⟨hr, trivial⟩
+    | exec stmt cons vals => exact specExec_plan cfg z curKs known stmt cons vals rest h
+
+theorem specStep_plan (cfg : Config) (au : Authn) (at_ : SpecAt) (a : PeerAnswer) (h : FromPlan cfg.plan (actsOf at_)) :
+    FromPlan cfg.plan (actsOf (specStep cfg au at_ a).1) ∧ execOfPlan cfg (specStep cfg au at_ a).2.1 := by
+  have h0 := fun z => specNext_plan cfg z [] [] cfg.plan (fun _ hx => hx)
+  cases at_ with
+  | options => cases a <;> exact ⟨fromPlan_nil _, trivial⟩
+  | startup z =>
+    cases a <;> try exact ⟨fromPlan_nil _, trivial⟩
+    case ready => exact h0 z
+    case authenticate cls =>
+      simp only [specStep]; split <;> exact ⟨fromPlan_nil _, trivial⟩
+  | auth z hist =>
+    cases a <;> try exact ⟨fromPlan_nil _, trivial⟩
+    case authChallenge c =>
+      simp only [specStep]; split <;> exact ⟨fromPlan_nil _, trivial⟩
+    case authSuccess t =>
+      simp only [specStep]
+      split
+      · split
+        · exact h0 z
+        · exact ⟨fromPlan_nil _, trivial⟩
+      · exact h0 z
+  | use z curKs ks known rest =>
+    cases a <;> try exact ⟨fromPlan_nil _, trivial⟩
+    case setKeyspace => exact specNext_plan cfg z ks known rest h
+  | reg z curKs known rest =>
+    cases a <;> try exact ⟨fromPlan_nil _, trivial⟩
+    case ready => exact specNext_plan cfg z curKs known rest h
+  | prep z curKs known stmt cons vals rest =>
+    cases a <;> try exact ⟨fromPlan_nil _, trivial⟩
+    case prepared id n =>
+      simp only [specStep]
+      split
+      · exact ⟨h, stmt, cons, vals, curKs, h _ (by simp [actsOf]), rfl⟩
+      · exact ⟨fromPlan_nil _, trivial⟩
+  | exe z curKs known stmt cons vals rest =>
+    have hr : FromPlan cfg.plan rest := fun x hx => h x (by simp [actsOf, hx])
+    cases a <;> try exact ⟨fromPlan_nil _, trivial⟩
+    case setKeyspace => exact specNext_plan cfg z curKs known rest hr
+    case void => exact specNext_plan cfg z curKs known rest hr
+    case unprepared uid => exact specExec_plan cfg z curKs _ stmt cons vals rest h
+  | stop w => cases a <;> exact ⟨fromPlan_nil _, trivial⟩
+
+theorem specRun_plan (cfg : Config) (au : Authn) :
+    ∀ (answers : List PeerAnswer) (at_ : SpecAt), FromPlan cfg.plan (actsOf at_) →
+      ∀ r ∈ specRun cfg au at_ answers, execOfPlan cfg (some r) := by
+  intro answers
+  induction answers with
+  | nil => intro at_ _ r hr; simp [specRun] at hr
+  | cons a as ih =>
+    intro at_ h r hr
+    have hs := specStep_plan cfg au at_ a h
+    simp only [specRun, List.mem_append] at hr
+    rcases hr with hr | hr
+    · cases hq : (specStep cfg au at_ a).2.1 with
+      | none => simp [hq] at hr
+      | some q =>
+        simp only [hq, Option.toList_some, List.mem_singleton] at hr
+        subst hr; rw [hq] at hs; exact hs.2
+    · exact ih _ hs.1 r hr
+
 end C03
